@@ -115,6 +115,33 @@ def run_roundtrip(W, cfg):
         W.ob('energy-forward', e_f, e_in)
 
 
+def cfg_inverse(tier, seed):
+    shapes = [(1, 2, 2, 1), (2, 2, 2, 2), (2, 3, 3, 2), (3, 2, 2, 2)] + ([(3, 3, 3, 3), (4, 3, 2, 4)] if tier != 'quick' else [])
+    out = [{'m': m, 'n': n, 'M': M, 'N': N, 'unitary': u} for (m, n, M, N) in shapes for u in (True, False)]
+    return out, len(out), True
+
+
+def run_inverse(W, cfg):
+    """idft2 for arbitrary sampling: conj(dft2(conj F)) with the forward transform's own normalisation (unitary: the same
+    sqrt(|alpha_r alpha_c|), so it handles energy exactly as the forward transform does; otherwise 1/F.size)"""
+    lt = W.lentil
+    m, n, M, N = cfg['m'], cfg['n'], cfg['M'], cfg['N']
+    G = W.complexes('g', (m, n))
+    ar, ac = W.real('ar'), W.real('ac')
+    sr, sc = W.real('sr'), W.real('sc')
+    out = lt.fourier.idft2(G, (ar, ac), shape=(M, N), shift=(sr, sc), unitary=cfg['unitary'])
+    kappa = W.sqrt(W.abs(ar * ac)) if cfg['unitary'] else W.const(Fraction(1, m * n))
+    want = [[None] * N for _ in range(M)]
+    for u in range(M):
+        for v in range(N):
+            acc = 0
+            for x in range(m):
+                for y in range(n):
+                    acc = acc + G[x, y] * W.e((ar * (x - m // 2) * ((u - M // 2) - sr)) + (ac * (y - n // 2) * ((v - N // 2) - sc)))
+            want[u][v] = acc * kappa
+    W.ob('idft2 = conjugate-kernel sum with the forward normalisation', out, W.array(want))
+
+
 def cfg_history(tier, seed):
     shapes = [(2, 2, 2, 2), (2, 3, 3, 2), (3, 3, 3, 3)]
     out = [{'m': m, 'n': n, 'M': M, 'N': N, 'calls': c} for (m, n, M, N) in shapes for c in ((2,) if tier == 'quick' else (2, 3))]
@@ -137,4 +164,5 @@ HARNESSES = {
     'dft2_value': {'configs': cfg_value, 'run': run_value, 'small': 4},
     'idft2_roundtrip': {'configs': cfg_roundtrip, 'run': run_roundtrip, 'small': 4},
     'history': {'configs': cfg_history, 'run': run_history, 'small': 4},
+    'inverse_any_sampling': {'configs': cfg_inverse, 'run': run_inverse, 'small': 4},
 }
